@@ -496,9 +496,9 @@ where
             };
 
             result = if bit {
-                self.bvs[level].select1(rank_b + result)
+                self.bvs[level].select1(rank_b.checked_add(result)?)
             } else {
-                self.bvs[level].select0(rank_b + result)
+                self.bvs[level].select0(rank_b.checked_add(result)?)
             }? - b;
         }
 
